@@ -14,8 +14,11 @@ VERIF = os.path.dirname(os.path.dirname(os.path.abspath(__file__)))
 REPO = os.environ.get('VERIF_REPO', '/repo')
 COQ = os.path.join(VERIF, 'coq')
 CASES = os.path.join(COQ, 'cases')
-EVID = os.path.join(VERIF, 'evidence')
+# evidence/ is committed and must describe runs on the unchanged tree: the seed tools (tools/allseeds.sh, oneseed.sh, ...) send the
+# evidence of their runs on a deliberately broken tree elsewhere
+EVID = os.environ.get('VERIF_EVIDENCE_DIR') or os.path.join(VERIF, 'evidence')
 REPLAY = os.path.join(VERIF, 'replay')
+os.makedirs(os.path.join(VERIF, '.scratch'), exist_ok=True)     # git does not keep the empty directory in a fresh checkout
 COQ_ENV = {'PATH': '/usr/local/bin:/usr/bin:/bin', 'HOME': '/root', 'LANG': 'C.UTF-8'}
 COQ_FLAGS = ['-Q', COQ, 'VZ']
 
